@@ -104,12 +104,6 @@ def check_case(acc, src, origin):
         problems.append(("parser-rejects-valid-fstring", {"outcome": pout.brief()}))
     else:
         diffs = diff_trees(cp, pout.value)
-        if diffs and not src.isascii():
-            if bytecols_to_charcols(cp, src):
-                d2 = diff_trees(cp, pout.value)
-                if not d2:
-                    acc.finding("F01e", src[:80])
-                diffs = d2
         if diffs:
             problems.append(("fstring-tree-differs", {"n": len(diffs), "diffs": [list(map(str, d)) for d in diffs[:6]]}))
     for kind, detail in problems:
